@@ -248,6 +248,9 @@ func lapackProp(self, other, what string) *property {
 			ce := worksize.RunCallee(def, core.Scope{Patterns: []string{"./lapack/gonum"}, Files: sc.Files})
 			ce.Floor("delegations_compared", 60)
 			res.Merge(ce)
+			wi := flagx.RunWorkInit(def, core.Pkgs("./lapack/gonum"))
+			wi.Floor("work_element_reads_and_updates", 100)
+			res.Merge(wi)
 			co := flagx.RunCholOrder(def, core.Pkgs("./lapack/gonum"))
 			co.Floor("cholesky_solve_pairs", 4)
 			res.Merge(co)
@@ -798,6 +801,8 @@ func dump(argv []string) {
 		res = flagx.RunCholOrder(def, core.Pkgs(argv[1:]...))
 	case "alphazero":
 		res = flagx.RunAlphaZero(def, core.Pkgs(argv[1:]...))
+	case "workinit":
+		res = flagx.RunWorkInit(def, core.Pkgs(argv[1:]...))
 	case "betascale":
 		res = flagx.RunBetaScale(def, core.Pkgs(argv[1:]...))
 	case "guardop":
